@@ -18,7 +18,7 @@ HARNESSES = [
 ]
 # every C03 finding is fixed in /repo (KNOWN_FINDINGS.txt): the only variant is what /repo HEAD does; a regression to an old
 # defect is a VIOLATION.  (The driver still accepts "defective" = the code before the fixes, for the _refuted witnesses.)
-VARIANTS = ["repaired"]
+VARIANTS = ["repaired", "defective"]   # defective = /repo HEAD without fixes/C03_pppoe_lcp_down_teardown.patch (known:)
 MODEL_NEEDS_IMPL = True   # only for the FSM table flavour reported by the harness (see notes/C03.md)
 RULE = ("pppoe: (a) systematic: each of 12 prefixes reaching a distinct phase/FSM situation (fresh, LCP open, auth pending, "
         "network, open, renegotiated, renegotiated+pending, re-authenticating, rejected, terminated, static address, "
@@ -349,10 +349,14 @@ def signature(case, impl, models):
         ev = t[2:]
         if k >= len(ev):
             return "none"
-        # repaired tears the session down when its authentication is rejected (or fails); today's code only
-        # closes LCP, so a rejected RE-authentication keeps the pool lease and the dataplane session
-        if ev[k].startswith("a:") and ev[k].split(":")[2] in ("rej", "err"):
-            return "pppoe-reject-no-teardown"
+        # repaired ends the PPPoE session when LCP leaves Opened on an authenticated link; HEAD keeps it with its lease
+        # and dataplane session while the new link is unauthenticated
+        sd = steps(dfc)
+        before = sd[k - 1].split("|")[1].split(",") if k > 0 else []
+        after = sd[k].split("|")[1].split(",")
+        for b, a in zip(before, after):
+            if len(b) > 2 and len(a) > 2 and b[0] == "l" and b[1] in "NO" and b[2] == "9" and a[2] != "9":
+                return "pppoe-reneg-keeps-dataplane"
         return "pppoe-unexplained"
     if t[0] == "ipoe":
         # repaired ignores an answer when no request is in flight; today's code applies it.  The effect may
